@@ -61,7 +61,8 @@ def concat_cases(draw):
     axis = draw(st.integers(0, 1))
     mode = draw(st.sampled_from(['random', 'random', 'aligned', 'aligned_same_layout', 'aligned_relayout', 'disjoint_concat', 'empties_first']))
     ch = {'union': draw(st.booleans()), 'fill': draw(st.sampled_from(FILLS)), 'replace': draw(st.sampled_from([None, 'auto', None, 'list'])),
-          'gen': draw(st.booleans()), 'form': draw(st.sampled_from(['concat', 'items', 'concat']))}
+          'gen': draw(st.booleans()), 'form': draw(st.sampled_from(['concat', 'items', 'concat'])),
+          'rname': draw(st.sampled_from([None, 'res', ('r', 1)])), 'consolidate': draw(st.booleans())}
     k = draw(st.sampled_from([2, 3, 1, 4, 2, 3, 1, 4, 2, 3, 0]))  # (no input at all is the zero-sized known finding: rare)
     nr, nc = draw(st.sampled_from([3, 2, 4, 1, 5, 6])), draw(st.sampled_from([3, 2, 4, 1, 5]))
     rkind = draw(st.sampled_from(['str', 'int']))
@@ -187,6 +188,8 @@ def check_concat(case):
     dup = len({_hk(l) for l in cat}) != len(cat)
     replace = case['replace'] if form == 'concat' else None
     kw = {'axis': axis, 'union': case['union'], 'fill_value': case['fill']}
+    if 'rname' in case:  # the result's name and whether equal-typed neighbouring blocks are merged (no effect on content)
+        kw.update(name=case['rname'], consolidate_blocks=case['consolidate'])
     cat_expect = list(cat)
     if replace == 'auto':
         kw['index' if axis == 0 else 'columns'] = sf.IndexAutoFactory
@@ -197,7 +200,8 @@ def check_concat(case):
     src = frames if not case['gen'] else (f for f in frames)
     if form == 'items':
         pairs = list(zip(outer, frames))
-        r = lib(lambda: sf.Frame.from_concat_items(pairs if not case['gen'] else (p for p in pairs), axis=axis, union=case['union'], fill_value=case['fill']))
+        ikw = {k: v for k, v in kw.items() if k in ('name', 'consolidate_blocks')}
+        r = lib(lambda: sf.Frame.from_concat_items(pairs if not case['gen'] else (p for p in pairs), axis=axis, union=case['union'], fill_value=case['fill'], **ikw))
     else:
         r = lib(lambda: sf.Frame.from_concat(src, **kw))
     classes = ['axis:%d' % axis, 'form:' + form, 'union' if case['union'] else 'intersection', 'vstack:' + _vstack_class(case), 'mode:' + case['mode'], 'replace:%s' % replace]
@@ -209,6 +213,8 @@ def check_concat(case):
         raise Failure('no-raise', 'duplicate labels %s on the concat axis produced %s' % (short(cat), short(r)))
     if isinstance(r, Raised):
         raise Failure('raised:%s' % r.cls, 'valid concatenation raised %r (cat labels %s, other %s)' % (r.exc, short(cat), short(other)), r.where)
+    if 'rname' in case and obs.canon_name(r.name) != obs.canon_name(case['rname']):
+        raise Failure('name', 'from_concat%s(name=%r) returned a frame named %r' % ('_items' if form == 'items' else '', case['rname'], r.name))
     gi, gc = obs.labels_of(r.index), obs.labels_of(r.columns)
     g_cat, g_other = (gi, gc) if axis == 0 else (gc, gi)
     if len(g_cat) != len(cat_expect) or not all(eq(a, canon(b)) for a, b in zip(g_cat, cat_expect)):
@@ -248,6 +254,7 @@ def series_cases(draw):
     what = draw(st.sampled_from(['s_concat', 's_concat_items', 's_overlay', 'f_overlay']))  # decisive choices first
     union, explicit = draw(st.booleans()), draw(st.booleans())
     hier = draw(st.integers(0, 3)) == 3   # overlay inputs labelled by a two-level hierarchy
+    rname = draw(st.sampled_from([None, 'res', ('r', 1)]))
     k = draw(st.sampled_from([2, 3, 1, 4]))
     n = draw(st.sampled_from([3, 2, 4, 1, 5, 6]))
     pool = draw(gen.flat_labels(n, draw(st.sampled_from(['str', 'int']))))
@@ -264,7 +271,7 @@ def series_cases(draw):
             ins.append({'pos': pos, 'cpos': cpos, 'blocks': draw(gen.blocks(len(pos), len(cpos), kinds=('float64', 'object', 'int64'), missing=True))})
         else:
             ins.append({'pos': pos, 'values': draw(gen.column(kind, len(pos)))})
-    return {'pool': pool, 'what': what, 'ins': ins, 'union': union, 'explicit': explicit, 'hier': hier and what in ('s_overlay', 'f_overlay')}
+    return {'pool': pool, 'what': what, 'ins': ins, 'union': union, 'explicit': explicit, 'hier': hier and what in ('s_overlay', 'f_overlay'), 'rname': rname}
 
 
 def _overlay_index(case, pos):
@@ -278,18 +285,24 @@ def _overlay_index(case, pos):
     return sf.IndexHierarchy.from_labels([pool[p] for p in pos]), pos
 
 
+def _name_is(r, case, what):
+    if 'rname' in case and obs.canon_name(r.name) != obs.canon_name(case['rname']):
+        raise Failure('name', '%s(name=%r) returned a container named %r' % (what, case['rname'], r.name))
+
+
 def check_series(case):
     pool, what = case['pool'], case['what']
+    nkw = {'name': case['rname']} if 'rname' in case else {}
     if case.get('hier'):
         case = dict(case, ins=[dict(x) for x in case['ins']])
     if what in ('s_concat', 's_concat_items'):
         ss = [sf.Series(x['values'], index=[pool[p] for p in x['pos']]) for x in case['ins']]
         if what == 's_concat':
             labels = [pool[p] for x in case['ins'] for p in x['pos']]
-            r = lib(lambda: sf.Series.from_concat(ss))
+            r = lib(lambda: sf.Series.from_concat(ss, **nkw))
         else:
             labels = [('k%d' % q, pool[p]) for q, x in enumerate(case['ins']) for p in x['pos']]
-            r = lib(lambda: sf.Series.from_concat_items([('k%d' % q, s) for q, s in enumerate(ss)]))
+            r = lib(lambda: sf.Series.from_concat_items([('k%d' % q, s) for q, s in enumerate(ss)]))  # (this form takes no name)
         vals = [v for x in case['ins'] for v in arr_list(x['values'])]
         dup = len({_hk(l) for l in labels}) != len(labels)
         if dup:
@@ -301,6 +314,8 @@ def check_series(case):
         if isinstance(r, Raised):
             raise Failure('raised:%s' % r.cls, '%s raised %r' % (what, r.exc), r.where)
         obs.expect_series(r, labels, vals, what)
+        if what == 's_concat':
+            _name_is(r, case, what)
         return {'nt': len(ss) >= 2, 'cls': [what]}
     if what == 's_overlay':
         # (values stay attached to the position they were drawn for; a hierarchy only reorders the rows of an input)
@@ -324,9 +339,10 @@ def check_series(case):
         if case['explicit']:
             labels = list(pool)
             kw = {'index': sf.IndexHierarchy.from_labels(pool) if case.get('hier') else list(pool)}
-        r = lib(lambda: sf.Series.from_overlay(ss, **kw))
+        r = lib(lambda: sf.Series.from_overlay(ss, **kw, **nkw))
         if isinstance(r, Raised):
             raise Failure('raised:%s' % r.cls, 'Series.from_overlay raised %r' % r.exc, r.where)
+        _name_is(r, case, what)
         got = {_hk(l): v for l, v in zip(obs.labels_of(r.index), arr_list(r.values))}
         if not same_multiset(list(got), [_hk(l) for l in labels]):
             raise Failure('labels', 'overlay labels %s expected %s' % (short(list(got)), short(labels)))
@@ -361,9 +377,10 @@ def check_series(case):
         fs.append(fr)
         carr = gen.block_columns(x['blocks'])
         per.append({(_hk(r), c): arr_list(carr[j])[i] for j, c in enumerate(cols) for i, r in enumerate(idx)})
-    r = lib(lambda: sf.Frame.from_overlay(fs, union=case['union']))
+    r = lib(lambda: sf.Frame.from_overlay(fs, union=case['union'], **nkw))
     if isinstance(r, Raised):
         raise Failure('raised:%s' % r.cls, 'Frame.from_overlay raised %r' % r.exc, r.where)
+    _name_is(r, case, what)
     gi, gc = obs.labels_of(r.index), obs.labels_of(r.columns)
     rcols = obs.frame_cols(r)
 
